@@ -68,6 +68,12 @@ CLAIMS = {
         note="int->float64 conversion and float comparison are implemented on bit patterns in Nat/Int arithmetic (validated against hardware floats "
         "and Go); unsigned operands >= 2^63 against signed ones are outside the property's int64 window. Fix 3c0c121 in /repo (time compared by instant).",
         tech="Lean 4 theorems over regenerated operator tables (decide tie) + real-function grid validation", ref="5.C19"),
+ "C07": dict(text="Lean theorems C07_status_alone (in any joint knowledge base, any order, a pass reports a rule as candidate iff its own condition holds), "
+        "C07_meaning_is_local, C07_sharing_unobservable (the run with snapshot-keyed sharing is the reference run). Snapshot printers are mirrored exactly "
+        "(strconv.QuoteToASCII, shortest float formatting implemented in integer arithmetic) and compared string-by-string with the real ones, as are the "
+        "working-memory key sets; oracle: every sibling rule behaves together exactly as alone on the real engine.",
+        note="SnapInj (snapshots determine nodes) is a named hypothesis of the refinement theorem (proof in progress: Proofs/SnapInj.lean); fixes 162f0cf (float "
+        "constants) and 9d8d3f3 (string constants) in /repo removed the two known collisions.", tech="Lean 4 corollaries of the refinement theorem + exact snapshot correspondence + alone-vs-together oracle", ref="5.C07"),
 }
 
 def main():
